@@ -42,6 +42,15 @@ partial def JVal.canon : JVal → String
   | .arr xs => "[" ++ ",".intercalate (xs.map JVal.canon) ++ "]"
   | .obj kvs => "{" ++ ",".intercalate (kvs.map (fun (k, v) => toHex k ++ ":" ++ v.canon)) ++ "}"
 
+/-- like `canon`, but every NaN prints as `#nan` (NaN payloads are not compared) -/
+partial def JVal.canonNaN : JVal → String
+  | .null => "n"
+  | .bool b => if b then "t" else "f"
+  | .num b => if F64.isNaN b then "#nan" else "#" ++ hex64 b
+  | .str s => "s" ++ toHex s
+  | .arr xs => "[" ++ ",".intercalate (xs.map JVal.canonNaN) ++ "]"
+  | .obj kvs => "{" ++ ",".intercalate (kvs.map (fun (k, v) => toHex k ++ ":" ++ v.canonNaN)) ++ "}"
+
 /-- canonical dump of a decoded tree: type, borders, key, index, lazily read scalar value, children
 (objects by sorted key, arrays by index). Reads go through `getValue`, so the heap is threaded. -/
 partial def dumpTree (h : Heap) (n : Id) : Heap × String :=
